@@ -134,6 +134,9 @@ def c01(trace):
             if len(evs) != len(moves):
                 out.add(i, 'portfolio %s history gained %d events for %d cash movements' % (pid, len(evs), len(moves)),
                         'history-length')
+            if p.get('hist_df_len') is not None and p['hist_df_len'] != p['hist_len']:
+                out.add(i, 'portfolio %s: the exported history (history_to_df) has %r rows for %d events' % (pid, p['hist_df_len'], p['hist_len']),
+                        'exported-history-length')
             for ev, mv in zip(evs, moves):
                 run += mv[1]
                 kind, amt = mv[0], mv[1]
@@ -346,6 +349,13 @@ def c04(trace):
                     out.add(i, 'submitting an order changed cash, holdings or history', 'submit-changed-state')
         if k == 'update':
             t = st['op'][1]
+            quoted = all(x[1] in st['quotes'] for q_ in pending.values() for x in q_)
+            clocks = [pre['clock']] + [p_['clock'] for p_ in pre['pfs']] + [q_['clock'] for p_ in pre['pfs'] for q_ in p_['positions']]
+            if st['out'] != 'ok' and quoted and t >= max(clocks) and (last_t is None or t >= last_t):
+                # every pending order has a quote and no clock regresses: the update goes through, whatever else is unquoted
+                out.add(i, 'update(%d) was refused (%s) although every pending order is quoted and no clock regresses; held without a quote: %r' % (
+                    t, st['out'], sorted(set(q_['asset'] for p_ in pre['pfs'] for q_ in p_['positions'] if q_['asset'] not in st['quotes']))),
+                    'update-refused')
             if st['out'] != 'ok' or (last_t is not None and t < last_t):
                 # outside the quantifier (missing quote / regressing clock): resynchronise
                 pending = {p['id']: [tuple(x) for x in p['queue']] for p in post['pfs']}
